@@ -37,6 +37,11 @@ func (k Keeper) GetLatestPriceFromAssetAndSource(ctx sdk.Context, asset, source 
 	for ; iterator.Valid(); iterator.Next() {
 		var val types.Price
 		k.cdc.MustUnmarshal(iterator.Value(), &val)
+		// the key prefix is asset+source without a delimiter, so it also covers the keys of other
+		// (asset, source) pairs whose concatenation starts with it: only accept an exact match
+		if val.Asset != asset || val.Source != source {
+			continue
+		}
 		return val, true
 	}
 
@@ -51,6 +56,10 @@ func (k Keeper) GetLatestPriceFromAnySource(ctx sdk.Context, asset string) (val 
 	for ; iterator.Valid(); iterator.Next() {
 		var val types.Price
 		k.cdc.MustUnmarshal(iterator.Value(), &val)
+		// the key prefix also covers every asset whose name merely starts with this one: only accept an exact match
+		if val.Asset != asset {
+			continue
+		}
 		return val, true
 	}
 
